@@ -45,7 +45,7 @@ def plan(tier, seed):
         if spec["solver"] == "kpm":
             spec["hermitian"] = True
             spec["N"] = min(spec["N"], 8)
-            spec["fd"] = False
+            spec["fd"] = bool(rng.random() < 0.4)  # the KPM solver is then also asked for blocks inside an explicit block
             spec["degenerate"] = False
             spec["kpm_options"] = str(rng.choice(["default", "atol", "atol_aux"]))
             while sum(spec["sizes"]) > spec["N"] - 3:  # keep an implicit subspace (and room for 2 auxiliary vectors)
@@ -113,7 +113,8 @@ def run_case(spec):
         if mode != "default":
             kw_imp["solver_options"] = {"atol": atol_kpm}
         if mode == "atol_aux":
-            kw_imp["solver_options"]["auxiliary_vectors"] = np.array(R[:, k:k + 2])
+            aux_cols = [k + 1, k] if rng.random() < 0.5 else [k, k + 1]  # (any order: not sorted by energy)
+            kw_imp["solver_options"]["auxiliary_vectors"] = np.array(R[:, aux_cols])
             counters["kpm_auxiliary"] += 1
         counters[f"kpm_options_{mode}"] += 1
         tol = 1e3 * atol_kpm
